@@ -30,6 +30,7 @@ var stateOrder = map[string]int{"opening": 0, "open": 1, "closing": 2, "closed":
 
 func init() {
 	register("C03", func(c *core.Ctx, tier string) {
+		frameTransportEffects(c, "C03.13")
 		accessorAgreement(c, "C03.12")
 		c03StateWrites(c)
 		casPolarity(c, "C03.2b")
